@@ -50,6 +50,7 @@ Opm::Deck do_parse(const cJSON* req, const Opm::Parser& parser) {
         }
         return parser.parseFile(dir + "/" + jstr(req, "root"), ctx, errors);
     }
+    if (jhas(req, "path")) return parser.parseFile(jstr(req, "path"), ctx, errors);
     return parser.parseString(jstr(req, "text"), ctx, errors);
 }
 
